@@ -360,7 +360,7 @@ def run(ck):
     nm = mod.func('node_matcher')
     c = [x for x in walk_local(nm) if isinstance(x, ast.Call) and call_name(x) == 'attributes_match']
     ign = try_fold(kwarg(c[0], 'ignore_keys'), default=()) if c else ()
-    ck.ob('DT-placement-predicates', mod.loc(nm), len(c) == 1 and [u(a) for a in c[0].args] == ['node1', 'node2'] and
+    ck.ob('DT-placement-predicates', mod.loc(nm), len(c) == 1 and [u(a) for a in c[0].args[:2]] == ['node1', 'node2'] and
           set(ign) == {'atype', 'charge', 'charge_group', 'mass', 'resid', 'replace', '_old_atomname'},
           'atoms are compared on every attribute the mapping gives, except the force-field specific / numbering ones {}'.format(sorted(ign)), key='DT-placement-predicates|node_matcher')
     oam = mod.func('_old_atomname_match')
